@@ -244,9 +244,18 @@ def build(case):
     return L, {n: x[0] for n, x in LW.items()}, WL, owned
 
 
+
+
+def _layout(a):
+    """every other 2-D argument is handed over in column-major (Fortran) memory layout: same content, same shape -
+    results must not depend on the memory layout of an argument"""
+    if isinstance(a, np.ndarray) and a.ndim == 2 and min(a.shape) > 1 and (a.shape[0] + a.shape[1]) % 2 == 0:
+        return np.asfortranarray(a)
+    return a
+
 def arg(x, nd, owned, what):
     if nd and isinstance(x, list):
-        a = np.array(x)
+        a = _layout(np.array(x))
         owned.append((what, a, a.copy()))
         return a
     return x
